@@ -108,14 +108,20 @@ var _ = digest.SpecHashSlot // spec functions used by the contracts below
 //@   properties C17
 //@   ghost var curDb mathint
 //@   requires nonnil: cli != nil
-//@   modifies heap, curDb, replayFailed, reqs, lastCmd, lastNArgs, lastA1, lastA2, lastA3, lastA4, lastReply, nDel, nPexpire
+//   cpFound  checkpoints of the run id met by the scan (one per database that holds one, stale or not)
+//@   ghost var cpFound mathint = 0
+//@   set cpFound = cpFound + ite(result1 == nil && result0.Offset > 0, 1, 0) after call fetchCheckpoint
+//@   ensures the_total_counts_every_database_that_holds_a_checkpoint_stale_or_not: result2 == nil ==> result0 == cpFound - old(cpFound) && result1 <= result0
+//@   modifies heap, curDb, replayFailed, reqs, lastCmd, lastNArgs, lastA1, lastA2, lastA3, lastA4, lastReply, nDel, nPexpire, cpFound
 //@   assert at call Do: never_the_newest: arg0 == "hdel" ==> !(exceptNewest && db#2 == newestDb)
 //@   assert at call Do: only_stale: arg0 == "hdel" ==> cpi#2.Mtime <= before
 //@   assert at call Do: the_position_a_restart_resumes_from_is_kept: arg0 == "hdel" && exceptNewest ==> cpi#2.Offset <= newest && (cpi#2.Offset == newest ==> db#2 != newestDb)
 //@   loop 1:
 //@     invariant newest_is_the_largest_offset_seen: len(cpis) == len(dbs) && (forall j int :: 0 <= j && j < len(cpis) ==> cpis[j] != nil && cpis[j].Offset <= newest)
+//@     invariant every_checkpoint_met_is_listed: len(dbs) == cpFound - old(cpFound)
 //@   loop 2:
 //@     invariant newest_is_the_largest_offset_seen: len(cpis) == len(dbs) && (forall j int :: 0 <= j && j < len(cpis) ==> cpis[j] != nil && cpis[j].Offset <= newest)
+//@     invariant every_checkpoint_met_is_listed: len(dbs) == cpFound - old(cpFound) && 0 <= deleted && deleted <= rangeindex + 1 && rangeindex < len(dbs)
 
 // ---- co-located bookkeeping keys (C18): the tag generated for slot s hashes to s -------------
 //@ func initBisyncSlotTags
